@@ -8,6 +8,15 @@ CLAIMED = {
  "C01": dict(tech="postcondition monitor on IFORM/ISORM _compute + reference Rosenblatt oracle over generated models",
     text="Every IFORM/ISORM contour computed from generated models (all 32 dependence structures of 2-4 variables, all shipped families, alpha 1e-8..0.5) is mapped back by a monitor through the model's own cdfs and an independent reference model; radius, directions, count, 2-D angles and the 2-D IFORM maximum are judged per point. Held on K monitored contours, not a proof.",
     note="trusted: numpy, scipy.special, the reference formulas (audited against scipy.stats), derived U-space tolerance (rounding of Phi(u), representability of x, absolute accuracy of the circular cdf)"),
+ "C02": dict(tech="monitors at cumsum_biggest_until / _compute capturing cell probabilities, HDR mask and threshold; offline oracle with reference-cdf cell probabilities",
+    text="For generated 2-D/3-D models, alphas and grids (anisotropic, scalar/list/array deltas, default limits, too-small limits, bimodal) the captured cell-probability array is compared with products of reference cdf differences; the captured mask must be a prefix of the descending order (ties tolerated), satisfy both content inequalities, fm must be the least enclosed density, a RuntimeWarning must appear exactly when the grid holds < 1-alpha, and the region must be recomputable from the public fm.",
+    note="trusted: refmodel.py cdfs, math.fsum, slack N*eps; default 3-D grid not run (stated bound)"),
+ "C03": dict(tech="postcondition monitor on DirectSamplingContour._compute: every vertex against both tangent lines with order-statistic brackets",
+    text="For arbitrary 2-D clouds (ties, heavy tails, lattices, model samples), alpha 1e-4..0.3 and all 19 divisors of 360 in [1,60], every polygon vertex must lie on the two (1-alpha)-quantile tangent lines it joins (any standard empirical quantile accepted), there must be exactly 360/deg_step vertices with normals advancing by deg_step, and n = int(100/alpha) points are drawn when no sample is given.",
+    note="trusted: numpy sort; vertex tolerance 1e-9*scale/sin(step)"),
+ "C04": dict(tech="guarded per-ray probes (VIROCON_VERIF) locating each search result + oracle recomputing exceedance fractions from the sample",
+    text="For AND and OR contours over generated non-negative samples (zeros, rounding), alphas, steps and allowed errors, every ray reported by the probe is judged: on its ray, exceedance recomputed with the documented strict inequalities within allowed_error unless the ray hit the 100-iteration cap (then the UserWarning must exist), the returned sequence, the OR keep/drop rule and both closing sequences.",
+    note="trusted: the probe only locates events (theta, point, iterations); verdicts are recomputed from sample and point; falls to inconclusive if the probe is not reached"),
  "C05": dict(tech="per-call monitor on every Distribution.cdf/icdf/pdf vs independent reference formulas + relation checks",
     text="Every cdf/icdf/pdf call of every family (direct, with explicit parameters, nested) is compared with the documented formula evaluated by an independent reference; monotonicity, range, round trips, derivative, explicit==instance (bitwise) and array_like forms are judged on generated parameter vectors over several orders of magnitude.",
     note="trusted: numpy, scipy.special, refmodel.py (selftest/ref_audit.py cross-checks it against scipy.stats called directly); von Mises compared for kappa<50 on [mu-pi,mu+pi]"),
@@ -26,6 +35,9 @@ CLAIMED = {
  "C13": dict(tech="postcondition monitor on ExponentiatedWeibullDistribution.fit vs an independent weighted regression + metamorphic drivers (weight scaling, row permutation, method alias)",
     text="Each least-squares fit over generated samples (zeros, ties, any order) and all weight specifications is compared with numpy-lstsq weighted quantile regression for the delta in force; free delta must be a local minimiser of the harness's own error; the driver re-fits with rescaled weights, permuted rows and the other method name.",
     note="trusted: numpy.linalg.lstsq; both readings of 'zeros are ignored' accepted; fmin's documented termination tolerances"),
+ "C15": dict(tech="harness-side boundary-cell/BFS recomputation from the captured HDR mask + permutation postcondition on the line sorter (both bindings)",
+    text="The boundary cells and their components are recomputed with explicit neighbour shifts and a BFS from the captured mask and compared as multisets with the returned coordinates for 2-D/3-D, isotropic/anisotropic grids; the sorter is driven with regular, anisotropic, irregular, clustered, collinear and duplicate point sets and must return a permutation.",
+    note="trusted: numpy; open known finding (sorter drops every point outside one component of its 2-NN graph) keyed by recomputing that graph"),
  "C10": dict(tech="postcondition monitor on IntervalSlicer.slice_ over an exhaustively driven edge lattice + random long vectors",
     text="All data vectors up to length 4 (quick) / 5 (thorough) over the half-width lattice for five widths, in every order, times the listed slicer configurations, plus random long rounded vectors: each slice_ call is judged by a monitor (exactly-one membership in the covered range, alignment, boundaries, references, dropped set, RuntimeError rule).",
     note="trusted: numpy comparisons; 'before dropping' is observed by re-running the same configuration with min_n_points=min_n_intervals=0"),
